@@ -136,7 +136,8 @@ def shrink(item, rerun):
     case, mode, rel = item["case"], item["mode"], item.get("release", False)
 
     def fails(c):
-        impl, model, sb = rerun(mode, c, crate=CRATE, release=rel, drv=DRV)
+        mi = (lambda case, impl_line: case + "\t" + impl_line) if mode.startswith("tuned") else None   # history-driven modes
+        impl, model, sb = rerun(mode, c, crate=CRATE, release=rel, model_input=mi, drv=DRV)
         # a candidate must fail the same way: same outcome word (a simplification that makes the harness itself
         # panic, e.g. a call script taking a buffer the generator no longer keeps, is not a smaller witness)
         same = impl.split(" ")[0] == str(item.get("impl") or "").split(" ")[0]
